@@ -140,6 +140,10 @@ type Result struct {
 	ReadErr   error `json:"-"` // error while reading the body stream
 }
 
+// HeadInCallerCtx, when present in the context given to Exec, makes the follow-up
+// HeadObject of an append use that context instead of a detached one.
+type HeadInCallerCtx struct{}
+
 // ErrKind maps an error to the kind vocabulary used by the model.
 func ErrKind(err error) string {
 	if err == nil {
@@ -325,7 +329,11 @@ func Exec(ctx context.Context, s storage.Storage, op *Op) *Result {
 		}
 		r.ETag, r.Size = res.ETag, res.Size
 		// AppendObjectResult carries no version id: learn it from a Head.
-		if o, herr := s.HeadObject(context.WithoutCancel(context.Background()), b, k, nil); herr == nil {
+		hctx := context.WithoutCancel(context.Background())
+		if ctx.Value(HeadInCallerCtx{}) != nil {
+			hctx = ctx // the caller runs Exec inside its own transaction: the Head must see it
+		}
+		if o, herr := s.HeadObject(hctx, b, k, nil); herr == nil {
 			r.VersionID = o.VersionID
 		}
 		return r
